@@ -39,6 +39,8 @@ def main():
     demo = os.path.join(outdir, "demo_%s_%s.rs" % (pid, x))
     notes = os.path.join(outdir, "%s.md" % x)
     name = "%s-%s" % (pid, x)
+    if "--name" in sys.argv:
+        name = sys.argv[sys.argv.index("--name") + 1]
     wt = "/tmp/wt/verify-%s" % name
     meta = {"id": name, "property": pid.upper(), "source": "independent sub-agent working in a private worktree with the property text only",
             "ran": [], "at": time.strftime("%Y-%m-%d %H:%M:%S")}
